@@ -240,8 +240,22 @@ impl<'a, 'tcx> Cx<'a, 'tcx> {
                     _ => {}
                 }
             }
-            ConstValue::Scalar(_) => {
+            ConstValue::Scalar(mir::interpret::Scalar::Ptr(ptr, _)) => {
                 o.push(("ptr".into(), J::Bool(true)));
+                let alloc_id = ptr.provenance.alloc_id();
+                match tcx.try_get_global_alloc(alloc_id) {
+                    Some(mir::interpret::GlobalAlloc::Static(did)) => {
+                        o.push(("static".into(), J::Str(fn_key(tcx, did))));
+                        o.push(("static_tls".into(), J::Bool(tcx.is_thread_local_static(did))));
+                    }
+                    Some(mir::interpret::GlobalAlloc::Function { instance }) => {
+                        o.push(("fnptr".into(), J::Str(fn_key(tcx, instance.def_id()))));
+                    }
+                    Some(mir::interpret::GlobalAlloc::Memory(_)) => {
+                        o.push(("mem".into(), J::Bool(true)));
+                    }
+                    _ => {}
+                }
             }
             ConstValue::ZeroSized => {
                 o.push(("zst".into(), J::Bool(true)));
